@@ -866,8 +866,9 @@ pub fn check_c04(scn: &Value, rt: &tokio::runtime::Runtime) -> Report {
         // full snapshots: all own names; plus one further asset / instrument name (own -> fine, foreign -> refused)
         let own_a: Vec<i64> = arr(m, "an").iter().map(int).collect();
         let own_i: Vec<i64> = arr(m, "inn").iter().map(int).collect();
-        let exp_a: Vec<i64> = own_a.iter().map(|l| a_exp(&arr(m, "na")[(*l - 1) as usize])).collect();
-        let exp_i: Vec<i64> = own_i.iter().map(|l| i_exp(&arr(m, "ni")[(*l - 1) as usize])).collect();
+        let at = |k: &str, l: i64| arr(m, k).get((l - 1) as usize).cloned().unwrap_or_else(|| usage(&format!("scenario names label {l} outside its own {k} table")));
+        let exp_a: Vec<i64> = own_a.iter().map(|l| a_exp(&at("na", *l))).collect();
+        let exp_i: Vec<i64> = own_i.iter().map(|l| i_exp(&at("ni", *l))).collect();
         for from in &froms {
             for via_event in [false, true] {
                 let want = if *from == ex { json!({"ok": true, "x": own_x + 1, "a": exp_a, "i": exp_i}) } else { json!({"ok": false, "x": 0, "a": [], "i": []}) };
